@@ -34,6 +34,14 @@ PLAN = {
                                      "assignment (right-hand side read before the store)"],
         assumptions=[MATH_ARITH, "coordinates finite"],
     ),
+    'C02': dict(
+        modules=['c14_measures', 'c02_point'], level='proof',
+        trusted_base=COMMON_TRUST + ["assumed numba contract: min/max over a non-empty finite 1-d array return its least / "
+                                     "greatest element; np.any over an element-wise comparison = exists"],
+        assumptions=[MATH_ARITH, "coordinates finite",
+                     "T1 (mathematical fact, not proved here): for a valid polygon (holes inside the shell, wound "
+                     "opposite to it) and a point on no ring, strictly inside <=> winding number != 0"],
+    ),
     'C13': dict(
         modules=['c13_bounds'], level='proof',
         trusted_base=COMMON_TRUST,
